@@ -5,8 +5,9 @@ COMMON_NOTE = ("Proof is modular over pandera's own code: pandas/polars/numpy/hy
 
 CLAIMED = {
     "C01": {"text": "Every obligation generated from the contracts of the pandas built-in checks and per-field core checks is discharged by SMT for all inputs "
-                    "(all series lengths, values, nulls, bounds, flags). Covers the leaf predicates and field-level core checks; the composition to whole-schema "
-                    "verdicts is covered as far as the listed functions go.",
+                    "(all series lengths, values, nulls, bounds, flags). Covers the leaf predicates, the field-level core checks incl. check_dtype, the composition "
+                    "(every parser and every core check runs on every validate, also for a frame that already carries the schema in its .pandera accessor; every failing "
+                    "result is reported) and - shape-bounded - column presence / strict / filter / order.",
             "note": COMMON_NOTE + "Regex matching is an uninterpreted relation; reshape_failure_cases is opaque."},
     "C18": {"text": "Environment parsing, context save/override/restore on every exit of an arbitrary with-body (generator split at the yield), the scope wrapper "
                     "skip rule, report filtering and the polars depth default are proved for all option values / all depths; the kill switch "
@@ -19,36 +20,42 @@ CLAIMED = {
             "note": COMMON_NOTE + "groupby(...).head(n) is axiomatised as an arbitrary sub-selection; user predicates are S-callbacks."},
     "C02": {"text": "ErrorHandler.collect_error/collect_errors are proved (eager raises exactly the offered error and records nothing; lazy appends exactly one "
                     "record), every collection loop is proved to offer each failing core result exactly once, in order, carrying the result's fields, the component "
-                    "loop loses and invents nothing, and the lazy/eager agreement follows as a lemma over those contracts. Failure-case cell exactness "
-                    "(reshape/consolidate pipelines) is not under contract.",
+                    "loop loses and invents nothing, and the lazy/eager agreement follows as a lemma over those contracts; the same for the polars container; which cells a "
+                    "failing check reports (postprocess_field: exactly the rows whose output is False, also under repeated labels). The reshape/consolidate pipelines "
+                    "are not under contract.",
             "note": COMMON_NOTE + "reshape_failure_cases / consolidate_failure_cases are opaque (pandas unstack/concat pipelines); SchemaErrors.__init__ is used through its contract."},
     "C03": {"text": "Lineage obligations on the real bodies of DataFrameSchemaBackend.validate, ArraySchemaBackend.validate and SeriesSchema.validate: the object that is "
                     "checked and returned is the result of the whole parser chain in order (each parser under its interface contract); drop_invalid_rows row algebra "
-                    "proved for pandas (all error counts, closed-form loop invariant) and polars (all frames, <= 3 errors). Idempotence of the individual parsers "
-                    "(library casts) is not decided.",
+                    "proved for pandas (all error counts, closed-form loop invariant) and polars (all frames, <= 3 errors); the polars container (parsers in documented order, "
+                    "sub-sample taken from the parsed frame, result is the parsed frame) and column back end; polars add_missing_columns (declared dtype, nothing lost, "
+                    "nothing else added) and set_default (present columns only). Idempotence of the individual parsers (library casts) is not decided.",
             "note": COMMON_NOTE + "The parsers add_missing_columns/strict_filter_columns/set_defaults/coerce_dtype are replaced by interface contracts (return a derived table or raise "
                     "SchemaError(s)); dtype coercion semantics are pandas/polars facts (C10)."},
     "C04": {"text": "Ownership/frame obligations on every validate entry point of the pandas back end (container, array, column, index, series) and the polars API: with "
-                    "inplace=False no callee that writes in place ever receives the caller's object; container kind preserved (polars DataFrame/LazyFrame).",
+                    "inplace=False no callee that writes in place ever receives the caller's object; container kind preserved (polars DataFrame/LazyFrame at the API level, "
+                    "LazyFrame in / LazyFrame out in the polars column back end incl. drop_invalid_rows); MultiIndex back end; the Index back end hands the index values on "
+                    "under positional labels.",
             "note": COMMON_NOTE + "S-lib mutator table (which library operations write their receiver) is assumed; MultiIndexBackend.validate is covered by the fix but not under contract."},
     "C05": {"text": "Frame obligations (every attribute of every pre-existing schema object equals its entry value on every normal and exceptional exit) on the "
-                    "validate call graph of the pandas back end, including the mutate-then-revert idioms, for every component kind and every outcome of the component's validate.",
+                    "validate call graph of the pandas back end, including the mutate-then-revert idioms, for every component kind and every outcome of the component's validate; "
+                    "MultiIndexBackend.validate and the polars component functions work on private copies (proved for every outcome).",
             "note": COMMON_NOTE + "Serialisation / statistics / strategies / model operations of the property's history alphabet are covered by C12-C16's contracts, not here."},
     "C06": {"text": "Exception-set obligations (only documented classes escape) and restore-on-exceptional-exit obligations with the user callback raising at a symbolic "
                     "position k of each run_checks loop; call-site precondition of drop_invalid_rows; structural obligation that every SchemaError construction site "
-                    "uses a mapped reason code.",
+                    "uses a mapped reason code; the polars container / column back ends, polars add_missing_columns and set_default (no polars exception class escapes).",
             "note": COMMON_NOTE + "Which exceptions library operations raise is declared per model; an undeclared library exception is outside the claim."},
     "C07": {"text": "Decides the sufficient condition data-race freedom on pandera state: the validate call graph is re-verified with the strict frame (no write, not even "
                     "a reverted one, to schema objects or module globals). The three writes that exist are refuted and listed as known findings with deterministic "
                     "callback-gated two-thread replays; everything else is proved. Lazy back-end registration: nothing shared is written before the last register_backend "
                     "call (publish order), every declared type gets its back ends, register_backend is an idempotent publish; writes to live module-level containers of pandera "
-                    "are tracked. Schedules themselves are not enumerated.",
+                    "are tracked; Dispatcher.__call__ (the process-wide object behind every built-in check) only reads. Schedules themselves are not enumerated.",
             "note": COMMON_NOTE + "pandas/polars/numpy are assumed thread-compatible on distinct data objects; liveness and deadlock are out of reach of contracts."},
     "C08": {"text": "All polars built-in checks are proved against the same spec functions as their pandas twins, and for the 9 comparison/membership checks the REAL "
                     "pandas and polars check back ends are executed side by side symbolically and proved to reach the same verdict for every column, bounds and "
                     "ignore_na=True (ignore_na=False is refuted: known finding). Container level: collect_column_info -> strict_filter_columns -> check_column_presence of BOTH "
                     "back ends against one documented spec of strict / 'filter' / ordered / required / add_missing_columns, for all option values over all column layouts "
-                    "with <= 3 declared and <= 3 frame columns (shape-bounded, options symbolic).",
+                    "with <= 3 declared and <= 3 frame columns (shape-bounded, options symbolic); polars component copies, parsers and null handling of row-wise outputs "
+                    "(ignore_na) as shared with C03/C05/C11.",
             "note": COMMON_NOTE + "polars expression semantics (Kleene logic, all() ignoring nulls) are axioms of pyvc/theories/polars_lite.py; the container twins are bounded in the "
                     "column layout (148 layouts, stated in every obligation note), regex columns excluded; parsed-output equality across back ends is not under contract."},
     "C09": {"text": "DataType.check predicates over the live class lattice with symbolic widths, Engine.dtype resolution order for a generic engine (symbolic equivalents table), "
@@ -62,15 +69,16 @@ CLAIMED = {
             "note": COMMON_NOTE + "coerce / coerce_value of each data type are S-callbacks in the proofs; the non-strict polars cast is an uninterpreted 'castable' predicate. "
                     "Bounded part: 40 (quick) / 400 (thorough) containers per data type, length <= 5."},
     "C11": {"text": "pandas drop_invalid_rows: rows(result) == rows whose label no collected error reports, for any number of errors (closed-form invariant), values/order kept; "
-                    "polars: rows kept iff every row-aligned check output is true, for all frames and <= 3 errors; the call-site precondition (only row-attributable errors) "
-                    "is refuted and listed.",
+                    "polars: rows kept iff every row-aligned check output is true, for all frames and <= 3 errors; what a row-wise polars check reports per row "
+                    "(ignore_na leaves no null output, column and dataframe-level checks); the call-site precondition (only row-attributable errors) is refuted and listed "
+                    "(pandas and polars).",
             "note": COMMON_NOTE + "MultiIndex label round trip through str/eval and reshape_failure_cases' 'index' column are not under contract."},
     "C12": {"text": "YAML/JSON leg: the live serialisers and deserialisers are executed as composite round trips (through an assumed dump+load transport that is the identity on "
                     "the JSON domain) and proved attribute by attribute for check statistics/options of all 15 built-in checks, components and whole schemas; script leg: every "
                     "template slot is proved to evaluate to the attribute it is named after (text theory); structural obligations on templates and keys.",
             "note": COMMON_NOTE + "yaml/json/black/exec are assumed (31 theory axioms replayed on the real libraries); schema shapes 0-2 columns, no index / Index / MultiIndex; from_yaml's file handling is a bounded stand-in."},
     "C13": {"text": "The 14 check strategies are proved against the C01 spec functions (support of the result inside dtype domain and check meaning, chained or base) for "
-                    "int64/float64/str; field_element_strategy's chaining loop with the invariant support(elements) within the intersection of the checks seen; flag flow of the "
+                    "int64/float64/str, numpy_time_dtypes bounds for datetime/timedelta; field_element_strategy's chaining loop with the invariant support(elements) within the intersection of the checks seen; flag flow of the "
                     "series/index/column assembly and schema strategy entry points; the post-processing pipeline of dataframe_strategy (custom checks without strategy are "
                     "evaluated on the frame that is emitted, the index component is attached; assembly call abstracted to an arbitrary base strategy); structural dispatcher table.",
             "note": COMMON_NOTE + "hypothesis strategies are modelled by their support (pyvc/theories/hypothesis_lite.py); data_frames/multiindex assembly is a bounded stand-in."},
@@ -84,12 +92,15 @@ CLAIMED = {
                     "column/index properties, to_schema caching and parent frame; structural tables for the option wiring.",
             "note": COMMON_NOTE + "_collect_fields (annotation parsing) is a bounded stand-in over generated hierarchies; config merge functions are covered only there."},
     "C17": {"text": "For 27 signature shapes (arity <= 3 plus *rest/**kw, sync and async) the real decorator factories and wrappers are symbolically executed for all argument "
-                    "values, options and behaviours of schema.validate and the body: option forwarding, gate, transparency, designation independence.",
+                    "values, options and behaviours of schema.validate and the body: option forwarding, gate, transparency, designation independence; decoration-time state "
+                    "(closures, handlers) is unchanged by every call (two-phase frame).",
             "note": COMMON_NOTE + "The family of signature shapes is a bound of this claim; inspect/typing run natively on real function objects (see notes/C17.md)."},
     "C20": {"text": "pandas subsample is proved against the position-set spec (rows == head U tail U pick, each once, values and order kept) for all "
                     "frames/series, all h,t,n and random states under the unique-index precondition; the any-index form is refuted by the verifier and listed as a "
-                    "known finding with native replay. The wiring of subsample vs whole object into every core check is proved for the container and array back ends.",
-            "note": COMMON_NOTE + "sample(n, random_state) is an uninterpreted row set that depends only on (random_state, n, object); polars subsample not yet under contract."},
+                    "known finding with native replay. The wiring of subsample vs whole object into every core check is proved for the pandas container and array back ends and the "
+                    "polars container; polars subsample against the same spec (value de-duplication and sample refuted: known findings); the Index back end forwards the options and "
+                    "validates the index values under positional labels.",
+            "note": COMMON_NOTE + "sample(n, random_state) is an uninterpreted row set that depends only on (random_state, n, object)."},
 }
 
 NOT_APPLICABLE = {}
